@@ -42,6 +42,37 @@ pub fn spec(id: &str) -> Option<Spec> {
          assumptions: common_assumptions(),
          expected_probes: vec!["preempt", "steal", "shard_override"],
       },
+      "C13" => Spec {
+         id: "C13",
+         level: "exploration",
+         quick_cases: 10_000,
+         thorough_cases: 300_000,
+         rule: "One case = one program value driven through a seeded history (run | push facts into any relation, also derived ones | run again, each run under its own pool and schedule). Model = set of facts pushed so far; after every completed run the state is compared with the previous snapshot (idempotence, if nothing was pushed) and, for positive programs, with the serial twin run fresh on the model. Non-trivial/distinct as for C02 (>= 1 preemption; distinct trace hashes); serial-variant histories (baseline configuration, no schedule) never count as non-trivial.",
+         assumptions: common_assumptions(),
+         expected_probes: vec!["preempt", "steal", "pool_switch"],
+      },
+      "C14" => Spec {
+         id: "C14",
+         level: "fault_enumeration",
+         quick_cases: 12_000,
+         thorough_cases: 300_000,
+         rule: "Fault = the virtual clock jumps past the timeout at clock reading k. For every group (program, input, knobs, schedule plan) a dry run with a stalled clock measures R, the number of clock readings of the uninterrupted run, and then every k in 1..=min(R, 99) is executed as its own case (run_timeout struck at k, then an uninterrupted run()); further slots of a group are seeded sequences of up to 4 interruptions (ticking clocks, large jumps, timeout 0, Duration::MAX, pushes in between). Returned false => state must be a sound under-approximation of the fixed point; any completed call => exactly the fixed point. Non-trivial = the deadline actually struck (run_timeout returned false at least once) or, for parallel variants, >= 1 preemption; distinct = distinct (trace hash, strike reading) pairs.",
+         assumptions: {
+            let mut a = common_assumptions();
+            a.push("the only time source of generated code is ascent::internal::Instant (checked by reading the generator); it is replaced by the virtual clock");
+            a
+         },
+         expected_probes: vec!["deadline_strike"],
+      },
+      "C20" => Spec {
+         id: "C20",
+         level: "exploration",
+         quick_cases: 10_000,
+         thorough_cases: 300_000,
+         rule: "One case = 1-3 program instances (same or different generated types, serial and parallel mixed) constructed and run concurrently on their own simulated threads, each construction and each run under its own pool reference (global pool, one of up to 3 custom pools of size 1/2/3/4/8, or a nested install), optionally run a second time under another pool; worker processes differ in the pool size that first evaluated the process-wide shard-count Lazy. Every instance must equal its serial twin run alone. Non-trivial/distinct as for C02.",
+         assumptions: common_assumptions(),
+         expected_probes: vec!["preempt", "steal", "co_tenant", "pool_switch"],
+      },
       _ => return None,
    };
    Some(s)
